@@ -10,7 +10,7 @@ import vlib
 
 PROPS = ["C16"]
 
-MODES = ["writer", "reader"]
+MODES = ["writer", "history", "reader"]
 CONFIRM_MAX = 200
 
 
@@ -84,6 +84,20 @@ def _norm(txt):
 def signature(name, fail, obs):
     """Canonical, stable description of one failing conjunct on one observation."""
     info = fail.get("info", {})
+    if obs.get("kind") == "history":
+        # the first failing send of the history, described like a single send, plus what kind of
+        # disturbance preceded it on the same process (a refused send, a failed connection write)
+        k = info.get("step", 1) - 1
+        st = obs["steps"][k]
+        one = dict(st, kind=st["p"].get("kind"))
+        prev = set()
+        for q in obs["steps"][:k]:
+            if q.get("err"):
+                prev.add("writefail" if q["p"].get("failat", -1) >= 0 else "refused")
+        if prev:
+            # which octets are stale decides where the decoder trips: not part of the signature
+            return "%s|kind=%s|prev=%s" % (name, one["kind"], "+".join(sorted(prev)))
+        return "%s|prev=clean" % signature(name, {"info": info.get("first", {})}, one)
     if obs.get("kind") == "read":
         hl, ty = info.get("hdrlen"), info.get("type")
         if name.endswith(".Bounded"):
@@ -132,6 +146,8 @@ def _short(o):
 def nontrivial_key(o):
     """Distinct non-trivial cases: a writer call that produced a message (keyed by the octets), a
     reader call on a stream that passes the marker test (keyed by the stream)."""
+    if o["kind"] == "history":
+        return "h" + vlib.canon([st["bytes"] for st in o["steps"]])
     if o["kind"] == "read":
         s = o["stream"]
         if len(s) >= 19 and all(b == 255 for b in s[:16]):
@@ -171,7 +187,11 @@ def run(chk):
     chk.cov["traces_validated_against_impl"] += nlines
     chk.cov["evaluations"] += nlines
     chk.cov["distinct_nontrivial"] += len({k for k in map(nontrivial_key, obs) if k})
-    chk.cov["writer_inputs"] = sum(1 for o in inputs if o["kind"] != "read")
+    chk.cov["writer_inputs"] = sum(1 for o in inputs if o["kind"] not in ("read", "history"))
+    chk.cov["writer_histories"] = sum(1 for o in inputs if o["kind"] == "history")
+    chk.cov["writer_history_sends"] = sum(len(o["steps"]) for o in obs if o["kind"] == "history")
+    chk.cov["writer_history_sends_refused_or_failed"] = sum(1 for o in obs if o["kind"] == "history"
+                                                            for st in o["steps"] if st["err"])
     chk.cov["reader_inputs"] = sum(1 for o in inputs if o["kind"] == "read")
     chk.cov["reader_accepted_by_code"] = sum(1 for o in obs if o["kind"] == "read" and o["ok"])
     chk.cov["exhaustive"] = True
@@ -181,7 +201,7 @@ def run(chk):
               "(the property does not say they must be refused); not a verdict" % len(info))
         chk.cov["drift_examples"] = [{"id": f["id"], "why": f["info"].get("why"),
                                       "stream": obs_by_id[f["id"]]["stream"][:64]} for f in info[:3]]
-    for k in ("update", "withdraw", "open", "keepalive", "read"):
+    for k in ("update", "withdraw", "open", "keepalive", "history", "read"):
         s = next((o for o in obs if o["kind"] == k), None)
         if s is not None:
             chk.cov["samples"].append(_short(s))
@@ -189,7 +209,8 @@ def run(chk):
         confirm(chk, verdict, byid, obs_by_id)
     chk.cov["rule"] = ("every input TLC enumerates from the bounded domain of spec/BGPWireMC.tla is executed once on the real "
                        "writers / readOpen; non-trivial = distinct non-empty messages produced by the writers plus distinct "
-                       "reader streams that pass the 16-octet marker test")
+                       "reader streams that pass the 16-octet marker test plus distinct per-call octet sequences of the writer histories "
+                       "(2..4 sends on one connection object, with refused sends and connection failures after k octets)")
     chk.assumptions += [
         "hold times are whole seconds in {0} u 3..65535; router id and next hop are 4-octet IPv4 addresses; prefixes are IPv4 "
         "(length 0..32), given as 4- or 16-octet net.IP with a 32-bit mask; bits beyond the prefix length are ignored (RFC 4271 4.3)",
@@ -198,6 +219,9 @@ def run(chk):
         "writes nothing is accepted (corner the statement leaves open)",
         "withdraw lists hold 1..3 distinct prefixes; OPEN optional-parameter types other than 2, conflicting capability-65 values, "
         "a non-zero reserved octet in capability 1 and identifier 0.0.0.0 are outside the 'well-formed OPEN' the reader must accept",
+        "histories: a send that returns an error where a refusal (large community, 64 communities, 2-octet corner) or an injected "
+        "connection failure is expected is not judged (it may have written nothing or a prefix); a send reporting success with a "
+        "large community has no defined intended content and is not judged; the following sends are judged on their own octets",
         "which malformed octet strings readOpen refuses is not judged (the statement only demands no panic, no hang, no over-read)",
     ]
 
